@@ -142,7 +142,8 @@ def kind_of(s):
 
 def minimise(runner, ops, kind):
     """greedy one-at-a-time removal of mutators (from the end), keeping the failure kind"""
-    ops = [o for o in ops if o[0] in MUTATORS]
+    # keep the mutators and, if the failing op is an observer (last op of the cut), that observer
+    ops = [o for i, o in enumerate(ops) if o[0] in MUTATORS or i == len(ops) - 1]
     r = runner.run([("m", ops)])
     if r is None or kind_of(r["m"]) != kind:
         return ops, r["m"] if r else None, False
